@@ -357,6 +357,13 @@ class StdFunction(Plugin):
             # a closure stored into a std::function: engaged, identity abstract; its body is not part of the unit unless listed separately
             unit.dropped.append('body of a lambda stored into std::function (in %s)' % unit.cur)
             return '((struct v_function){1, (int)v_nondet_i64()})'
+        if inner['kind'] == 'CallExpr':
+            cal = unit.strip_tmp(unit.kids(inner)[0])
+            while cal['kind'] == 'ImplicitCastExpr' and unit.kids(cal): cal = unit.strip_tmp(unit.kids(cal)[0])
+            if cal.get('referencedDecl', {}).get('name') == 'bind':
+                # std::bind(&C::method, this, ...) stored into a std::function: engaged, identity abstract (as for a lambda); the bound call is not part of the unit
+                unit.dropped.append('call bound by std::bind and stored into std::function (in %s)' % unit.cur)
+                return '((struct v_function){1, (int)v_nondet_i64()})'
         raise Unsupported('std::function constructed from %s (in %s)' % (inner['kind'], unit.cur))
 
     def field_init(self, unit, f, ct, target, e):
